@@ -23,4 +23,3 @@ for c in sys.argv[1:]:
     print(line, flush=True); out.write(line + '\n'); out.flush()
     subprocess.run(['git', '-C', '/repo', 'worktree', 'remove', '--force', wt])
     os.remove(xml)
-    shutil.rmtree('/tmp/pytest-of-root', ignore_errors=True)
